@@ -356,6 +356,291 @@ fn sink_part(a: usize, schema: &Schema, p: &Pres, expected: &[u8], t: &Tier, cov
 }
 
 
+
+// ---------------------------------------------------------------------------------------------
+// HIST: histories of single-object serializations on ONE `SerializerConfig`
+
+/// A schema of the history exploration with two values and presentations that genuinely do not fit.
+pub struct HSchema {
+	pub label: &'static str,
+	pub ast: RSchema,
+	pub values: Vec<RValue>,
+	pub mismatches: Vec<Pres>,
+}
+
+pub fn hist_schemas() -> Vec<HSchema> {
+	use RSchema as S;
+	let st = |s: &str| RValue::Str(s.to_owned());
+	vec![
+		HSchema { label: "long", ast: S::Long, values: vec![RValue::Long(1), RValue::Long(-70000)], mismatches: vec![Pres::str("x"), Pres::seq(vec![Pres::I64(1)])] },
+		HSchema { label: "string", ast: S::String, values: vec![st("a"), st("hello")], mismatches: vec![Pres::I64(5), Pres::Bool(true)] },
+		HSchema {
+			label: "ns.R{a:long,b:string}",
+			ast: S::record("ns.R", vec![("a", S::Long), ("b", S::String)]),
+			values: vec![RValue::Record(vec![RValue::Long(300), st("bc")]), RValue::Record(vec![RValue::Long(-2), st("")])],
+			// second field of the wrong type (the first is written before the mismatch is met); unknown field
+			mismatches: vec![Pres::strukt("R", vec![("a", Pres::I64(7)), ("b", Pres::I64(8))]), Pres::strukt("R", vec![("a", Pres::I64(7)), ("zz", Pres::str("q"))])],
+		},
+		HSchema {
+			label: "array<long>",
+			ast: S::array(S::Long),
+			values: vec![RValue::Array(vec![RValue::Long(1), RValue::Long(-2), RValue::Long(300)]), RValue::Array(vec![])],
+			// a str after two good elements
+			mismatches: vec![Pres::seq(vec![Pres::I64(1), Pres::I64(2), Pres::str("x")]), Pres::str("x")],
+		},
+		HSchema {
+			label: "[null,long,string]",
+			ast: S::Union(vec![S::Null, S::Long, S::String]),
+			values: vec![RValue::Union(1, Box::new(RValue::Long(5))), RValue::Union(2, Box::new(st("x")))],
+			mismatches: vec![Pres::Bool(true), Pres::seq(vec![Pres::I64(1)])],
+		},
+		HSchema {
+			label: "enum ns.E{A,B,C}",
+			ast: S::enum_("ns.E", &["A", "B", "C"]),
+			values: vec![RValue::Enum(0), RValue::Enum(2)],
+			// unknown symbol
+			mismatches: vec![Pres::UnitVariant { name: "E", idx: 7, variant: "Z" }, Pres::str("Z")],
+		},
+	]
+}
+
+#[derive(Clone, Copy, Debug, PartialEq, Eq, Hash)]
+pub enum HOp {
+	/// `to_single_object_vec` of value i
+	OkVec(usize),
+	/// `to_single_object` of value i into a fresh `Vec`
+	OkWriter(usize),
+	/// value i, its k-th nested `serialize` call fails; through the Vec / the writer variant
+	FailVec(usize, usize),
+	FailWriter(usize, usize),
+	/// mismatching presentation j
+	MisVec(usize),
+	MisWriter(usize),
+}
+
+pub struct HUnit {
+	pub label: &'static str,
+	pub text: String,
+	pub schema: Schema,
+	pub pres: Vec<Pres>,
+	pub values: Vec<RValue>,
+	pub mismatches: Vec<Pres>,
+	/// model message per value
+	pub msgs: Vec<Vec<u8>>,
+	pub ops: Vec<HOp>,
+	/// ops dropped because they do not behave as their name says on a fresh configuration (no verdict)
+	pub dropped: Vec<String>,
+	/// a failing op leaves a partial datum behind (seen through the writer variant)
+	pub partial_datum_ops: usize,
+}
+
+fn hist_apply(u: &HUnit, op: HOp, config: &mut SerializerConfig<'_>) -> (Out<Vec<u8>>, usize) {
+	let vec_call = |p: &Pres, config: &mut SerializerConfig<'_>| guarded(|| serde_avro_fast::to_single_object_vec(p, config).map_err(|e| e.to_string()));
+	// the writer variant: returns what reached the writer also on failure (second component)
+	let writer_call = |p: &Pres, config: &mut SerializerConfig<'_>| {
+		let mut buf: Vec<u8> = Vec::new();
+		let r = guarded(|| serde_avro_fast::to_single_object(p, &mut buf, config).map(|_| ()).map_err(|e| e.to_string()));
+		let n = buf.len();
+		(r.map(|()| buf), n)
+	};
+	match op {
+		HOp::OkVec(i) => (vec_call(&u.pres[i], config), 0),
+		HOp::OkWriter(i) => writer_call(&u.pres[i], config),
+		HOp::FailVec(i, k) => (crate::pres::with_failure(Some(k), || vec_call(&u.pres[i], config)).0, 0),
+		HOp::FailWriter(i, k) => crate::pres::with_failure(Some(k), || writer_call(&u.pres[i], config)).0,
+		HOp::MisVec(j) => (vec_call(&u.mismatches[j], config), 0),
+		HOp::MisWriter(j) => writer_call(&u.mismatches[j], config),
+	}
+}
+
+fn hist_expect_ok(op: HOp) -> Option<usize> {
+	match op {
+		HOp::OkVec(i) | HOp::OkWriter(i) => Some(i),
+		_ => None,
+	}
+}
+
+fn hist_show_op(u: &HUnit, op: HOp) -> String {
+	match op {
+		HOp::OkVec(i) => format!("to_single_object_vec({:?})", u.values[i]),
+		HOp::OkWriter(i) => format!("to_single_object({:?}, Vec::new())", u.values[i]),
+		HOp::FailVec(i, k) => format!("to_single_object_vec({:?} whose serialize call #{k} fails)", u.values[i]),
+		HOp::FailWriter(i, k) => format!("to_single_object({:?} whose serialize call #{k} fails, Vec::new())", u.values[i]),
+		HOp::MisVec(j) => format!("to_single_object_vec(mismatching {:?})", u.mismatches[j]),
+		HOp::MisWriter(j) => format!("to_single_object(mismatching {:?}, Vec::new())", u.mismatches[j]),
+	}
+}
+
+pub fn hist_units() -> Result<Vec<HUnit>, String> {
+	let mut out = Vec::new();
+	for h in hist_schemas() {
+		let env = Env::new(&h.ast);
+		let text = gen::schema_text(&h.ast);
+		let schema = gen::to_crate_schema(&h.ast)?;
+		let fp = vmodel::crc::fingerprint_le(pcf(&h.ast).as_bytes());
+		let mut pres = Vec::new();
+		let mut msgs = Vec::new();
+		for v in &h.values {
+			pres.push(gen::pres_of(v, &h.ast, &env, UnionStyle::ByTypeWhereUnambiguous, RecordStyle::Struct));
+			let mut m = vec![0xC3, 0x01];
+			m.extend_from_slice(&fp);
+			m.extend_from_slice(&vmodel::value::encode(v, &h.ast, &env, &mut vmodel::value::Canonical)?);
+			msgs.push(m);
+		}
+		let mut u = HUnit { label: h.label, text, schema, pres, values: h.values, mismatches: h.mismatches, msgs, ops: Vec::new(), dropped: Vec::new(), partial_datum_ops: 0 };
+		// candidate ops, each validated on a FRESH configuration: an op that does not behave as named is dropped
+		let mut cands: Vec<HOp> = Vec::new();
+		for i in 0..u.values.len() {
+			cands.push(HOp::OkVec(i));
+			cands.push(HOp::OkWriter(i));
+			let (_, ncalls) = crate::pres::with_failure(None, || {
+				let mut c = SerializerConfig::new(&u.schema);
+				let _ = guarded(|| serde_avro_fast::to_single_object_vec(&u.pres[i], &mut c).map_err(|e| e.to_string()));
+			});
+			for k in 0..ncalls {
+				cands.push(HOp::FailVec(i, k));
+				cands.push(HOp::FailWriter(i, k));
+			}
+		}
+		for j in 0..u.mismatches.len() {
+			cands.push(HOp::MisVec(j));
+			cands.push(HOp::MisWriter(j));
+		}
+		for op in cands {
+			let mut c = SerializerConfig::new(&u.schema);
+			let (r, reached_writer) = hist_apply(&u, op, &mut c);
+			let fine = match hist_expect_ok(op) {
+				Some(i) => r == Out::Ok(u.msgs[i].clone()),
+				None => r.is_err(),
+			};
+			if fine {
+				if hist_expect_ok(op).is_none() && reached_writer > 10 {
+					u.partial_datum_ops += 1;
+				}
+				u.ops.push(op);
+			} else {
+				u.dropped.push(format!("{} on a fresh configuration returned {}", hist_show_op(&u, op), show(&r)));
+			}
+		}
+		out.push(u);
+	}
+	Ok(out)
+}
+
+/// Execute one history on one fresh configuration; verdict on its LAST call (the earlier calls are
+/// the last calls of its prefixes). Returns (result of the last call, verdict).
+fn hist_eval(u: &HUnit, history: &[HOp]) -> (Option<Out<Vec<u8>>>, Result<(), (&'static str, String)>) {
+	let mut config = SerializerConfig::new(&u.schema);
+	let mut last = None;
+	for &op in history {
+		last = Some(hist_apply(u, op, &mut config).0);
+	}
+	let (Some(r), Some(&op)) = (&last, history.last()) else { return (last, Ok(())) };
+	let verdict = match (hist_expect_ok(op), r) {
+		(_, Out::Panic(m)) => Err(("history-panic", format!("panicked: {m}"))),
+		(Some(i), Out::Ok(b)) if *b == u.msgs[i] => Ok(()),
+		(Some(i), Out::Ok(b)) => Err(("history-bytes-differ", format!("returned [{}]; a fresh configuration (and the model) gives [{}]", hex(b), hex(&u.msgs[i])))),
+		(Some(_), Out::Err(e)) => Err(("history-ok-became-err", format!("returned Err({e}); on a fresh configuration the same call succeeds"))),
+		(None, Out::Ok(b)) => Err(("history-err-became-ok", format!("returned Ok([{}]); on a fresh configuration the same call fails", hex(b)))),
+		(None, Out::Err(_)) => Ok(()),
+	};
+	(last, verdict)
+}
+
+fn hist_describe(u: &HUnit, history: &[HOp]) -> String {
+	format!("schema {} — one SerializerConfig, calls in order: {}", u.text, history.iter().enumerate().map(|(i, op)| format!("({}) {}", i + 1, hist_show_op(u, *op))).collect::<Vec<_>>().join("; "))
+}
+
+fn run_hist_unit(ui: usize, u: &HUnit, depth: usize) -> (Cover, Vec<Violation>) {
+	let mut cover = Cover::default();
+	let mut out = Vec::new();
+	let mut runs = 0u64;
+	let mut ok_after_failure = 0u64;
+	let mut evals = 0u64;
+	let mut found: Vec<(Vec<HOp>, &'static str, String)> = Vec::new();
+	let mut nontrivial: Vec<u64> = Vec::new();
+	let (b, capped) = crate::explore::bfs(&u.ops, depth, 5_000_000, |h: &[HOp]| {
+		runs += h.len() as u64;
+		evals += 1;
+		let (_, verdict) = hist_eval(u, h);
+		if h.len() >= 2 && hist_expect_ok(h[h.len() - 1]).is_some() && h[..h.len() - 1].iter().any(|op| hist_expect_ok(*op).is_none()) {
+			ok_after_failure += 1;
+			nontrivial.push(hash64(&(ui, "hist", h)));
+		}
+		let inv = match verdict {
+			Ok(()) => Ok(()),
+			Err((class, why)) => {
+				if found.len() < 40 {
+					found.push((h.to_vec(), class, why.clone()));
+				}
+				Err(why)
+			}
+		};
+		// the key is the history itself: nothing is merged (the configuration has state no hook shows)
+		(hash64(&(ui, h)), inv, true)
+	});
+	cover.states += b.states;
+	cover.transitions += b.transitions;
+	cover.nontrivial.extend(nontrivial);
+	cover.evaluations += evals;
+	cover.impl_runs += runs;
+	if capped {
+		cover.caps.push(format!("history exploration of {}: state cap hit", u.label));
+	}
+	cover.count("hist_histories", evals);
+	cover.count("hist_ok_call_after_a_failed_call_on_the_same_config", ok_after_failure);
+	cover.count("hist_failing_ops_leaving_a_partial_datum", u.partial_datum_ops as u64);
+	cover.count("hist_ops", u.ops.len() as u64);
+	cover.count("hist_ops_dropped(not as named on a fresh config; no verdict)", u.dropped.len() as u64);
+	for (h, class, why) in found {
+		let idx: Vec<usize> = h.iter().map(|op| u.ops.iter().position(|o| o == op).unwrap()).collect();
+		cover.nontrivial.insert(hash64(&(ui, "hist", &idx)));
+		out.push(Violation { class: class.to_owned(), what: format!("call ({}) {why}; {}", h.len(), hist_describe(u, &h)), replay: json!({"check": "C18", "hist": {"schema": ui, "label": u.label, "ops": idx}}) });
+	}
+	(cover, out)
+}
+
+fn replay_hist(r: &serde_json::Value) -> i32 {
+	let us = match hist_units() {
+		Ok(u) => u,
+		Err(e) => {
+			eprintln!("replay: {e}");
+			return 2;
+		}
+	};
+	let ui = r["schema"].as_u64().unwrap_or(0) as usize;
+	let Some(u) = us.get(ui) else {
+		eprintln!("replay: no history schema {ui}");
+		return 2;
+	};
+	if r["label"].as_str() != Some(u.label) {
+		eprintln!("replay: history schema {ui} is {}, not the recorded one", u.label);
+		return 2;
+	}
+	let idx: Vec<usize> = r["ops"].as_array().map(|a| a.iter().map(|x| x.as_u64().unwrap() as usize).collect()).unwrap_or_default();
+	if idx.iter().any(|&i| i >= u.ops.len()) {
+		eprintln!("replay: op index out of range (the op alphabet changed)");
+		return 2;
+	}
+	let h: Vec<HOp> = idx.iter().map(|&i| u.ops[i]).collect();
+	println!("{}", hist_describe(u, &h));
+	let mut bad = 0;
+	for n in 1..=h.len() {
+		let (last, verdict) = hist_eval(u, &h[..n]);
+		println!("  call ({n}) returned {}", last.map(|r| show(&r.map(|b| hex(&b)))).unwrap_or_default());
+		if let Err((class, why)) = verdict {
+			println!("  [{class}] call ({n}) {why}");
+			bad += 1;
+		}
+	}
+	if bad == 0 {
+		println!("  property holds on this history");
+		0
+	} else {
+		1
+	}
+}
+
 // ---------------------------------------------------------------------------------------------
 // One leaf: (schema A, value) with every damage, and against every other schema B
 
@@ -372,13 +657,15 @@ pub struct Tier {
 	pub sink_values: u64,
 	/// leaf cap of one deviation-bounded sink exploration
 	pub sink_leaf_cap: u64,
+	/// length of the call histories on one SerializerConfig
+	pub hist_depth: usize,
 }
 
 pub fn tier(thorough: bool) -> Tier {
 	if thorough {
-		Tier { thorough, max_leaves: 20000, pair_values: 256, compositions_up_to: 13, max_items: 3, level: 2, n_base: n_base(), sink_values: 24, sink_leaf_cap: 50_000 }
+		Tier { thorough, max_leaves: 20000, pair_values: 256, compositions_up_to: 13, max_items: 3, level: 2, n_base: n_base(), sink_values: 24, sink_leaf_cap: 50_000, hist_depth: 4 }
 	} else {
-		Tier { thorough, max_leaves: 20000, pair_values: 32, compositions_up_to: 12, max_items: 2, level: 1, n_base: n_base(), sink_values: 4, sink_leaf_cap: 5_000 }
+		Tier { thorough, max_leaves: 20000, pair_values: 32, compositions_up_to: 12, max_items: 2, level: 1, n_base: n_base(), sink_values: 4, sink_leaf_cap: 5_000, hist_depth: 3 }
 	}
 }
 
@@ -628,7 +915,7 @@ pub fn run(rep: &mut Report) {
 	let distinct_pcf: std::collections::HashSet<&str> = us.iter().map(|u| u.pcf.as_str()).collect();
 	let same_pcf_pairs = us.iter().enumerate().map(|(i, a)| us.iter().enumerate().take(t.n_base).filter(|(j, b)| *j != i && b.pcf == a.pcf).count()).sum::<usize>();
 	rep.rule = format!(
-		"SAE: {} hand-made ASTs plus the {} schemas of the shared alphabet Σ_S level {} ({} distinct canonical forms; the hand-made set incl. pairs differing only in a record/enum/fixed name, namespace, field name or symbol, and {} ordered pairs with the same canonical form but another logical type), each in up to 4 spellings of the same canonical form (attribute order, extra attributes, whitespace, name/namespace forms; used only if the crate gives them the canonical fingerprint), x every value of gen::gen_value (full boundary alphabet, collections <= {} items, leaf cap {} per schema). Per (schema, value): to_single_object_vec = c3 01 ‖ fingerprint_le(pcf(AST)) ‖ datum that the reference decodes to the value; message (built by the model) decoded from the slice and from a ChunkedBufRead under {} returns the expected observation; each of the 10 header bytes x 8 bit flips => Err (slice + {} chunkings incl. a cut at every header position); truncation to every length: < 10 => Err, otherwise slice ≡ reader (Ok/Err + observation); for the first {} values per schema A, every B of the hand-made set: PCF differs => Err on slice / whole / 1-byte reader, PCF equal => same result as from_datum_* of the bare datum under B. For the first {} values per schema the message is also written with to_single_object into an envs::ScheduledSink: every regular schedule 'at most k bytes per write call' k = 1..=12, then every schedule with <= 2 deviations from accept-everything (short writes of envs::sink_menu, Interrupted, hard error, Ok(0); ENV, leaf cap {} per value): without a hard fault the call is Ok and the sink holds exactly the bytes the Vec variant produces, with a hard fault the call is Err. Error messages never compared. Non-trivial: every (schema, input bytes, decoding schema) case — whole message, one flipped header bit, one truncation, one foreign/equivalent schema; distinct on exactly that triple.",
+		"SAE: {} hand-made ASTs plus the {} schemas of the shared alphabet Σ_S level {} ({} distinct canonical forms; the hand-made set incl. pairs differing only in a record/enum/fixed name, namespace, field name or symbol, and {} ordered pairs with the same canonical form but another logical type), each in up to 4 spellings of the same canonical form (attribute order, extra attributes, whitespace, name/namespace forms; used only if the crate gives them the canonical fingerprint), x every value of gen::gen_value (full boundary alphabet, collections <= {} items, leaf cap {} per schema). Per (schema, value): to_single_object_vec = c3 01 ‖ fingerprint_le(pcf(AST)) ‖ datum that the reference decodes to the value; message (built by the model) decoded from the slice and from a ChunkedBufRead under {} returns the expected observation; each of the 10 header bytes x 8 bit flips => Err (slice + {} chunkings incl. a cut at every header position); truncation to every length: < 10 => Err, otherwise slice ≡ reader (Ok/Err + observation); for the first {} values per schema A, every B of the hand-made set: PCF differs => Err on slice / whole / 1-byte reader, PCF equal => same result as from_datum_* of the bare datum under B. For the first {} values per schema the message is also written with to_single_object into an envs::ScheduledSink: every regular schedule 'at most k bytes per write call' k = 1..=12, then every schedule with <= 2 deviations from accept-everything (short writes of envs::sink_menu, Interrupted, hard error, Ok(0); ENV, leaf cap {} per value): without a hard fault the call is Ok and the sink holds exactly the bytes the Vec variant produces, with a hard fault the call is Err. HIST: for {} schemas (long, string, record, array, union, enum) every history of <= {} calls on ONE SerializerConfig over the ops {{to_single_object_vec(v), to_single_object(v, Vec), the same with the k-th nested serialize call failing (every k, pres::with_failure), genuinely mismatching presentations (wrong type, wrong type after a written prefix, unknown field / branch / symbol)}} x 2 values, each op validated on a fresh configuration; after every call: an ok-op returns exactly the message a fresh configuration (= the model) gives, a failing op still fails, no panic (no state merging: the key is the history). Error messages never compared. Non-trivial: every history in which an ok-op follows a failed op on the same configuration, and every (schema, input bytes, decoding schema) case — whole message, one flipped header bit, one truncation, one foreign/equivalent schema; distinct on exactly that triple.",
 		t.n_base,
 		us.len() - t.n_base,
 		t.level,
@@ -640,7 +927,9 @@ pub fn run(rep: &mut Report) {
 		"13",
 		t.pair_values,
 		t.sink_values,
-		t.sink_leaf_cap
+		t.sink_leaf_cap,
+		hist_schemas().len(),
+		t.hist_depth
 	);
 	rep.assumptions.push("vmodel::schema::pcf + bit-serial CRC-64-AVRO give the fingerprint the specification prescribes; vmodel::value::encode gives a valid datum encoding".into());
 	let results: Vec<(Cover, Vec<Violation>)> = (0..us.len()).into_par_iter().map(|a| run_unit(&us, a, &t)).collect();
@@ -648,6 +937,20 @@ pub fn run(rep: &mut Report) {
 		rep.cover.merge(c);
 		rep.violations.extend(v);
 	}
+	// HIST: call histories on one SerializerConfig
+	let hus = match hist_units() {
+		Ok(u) => u,
+		Err(e) => {
+			eprintln!("MACHINERY: C18 history part: {e}");
+			std::process::exit(2);
+		}
+	};
+	let hres: Vec<(Cover, Vec<Violation>)> = hus.par_iter().enumerate().map(|(i, u)| run_hist_unit(i, u, t.hist_depth)).collect();
+	for (c, v) in hres {
+		rep.cover.merge(c);
+		rep.violations.extend(v);
+	}
+	rep.extra.insert("history_schemas".into(), json!(hus.iter().map(|u| json!({"schema": u.text, "ops": u.ops.len(), "dropped_ops": u.dropped})).collect::<Vec<_>>()));
 	rep.extra.insert("schemas".into(), json!(us.len()));
 	let skipped: Vec<&String> = us.iter().flat_map(|u| u.skipped_spellings.iter()).collect();
 	rep.extra.insert("spellings_not_used_because_rejected_or_fingerprinted_differently".into(), json!({"count": skipped.len(), "first": skipped.iter().take(4).collect::<Vec<_>>()}));
@@ -669,6 +972,8 @@ pub fn run(rep: &mut Report) {
 		"sink_hard_fault_injected",
 		"sink_interrupted",
 		"sink_deviating_schedule_without_fault",
+		"hist_ok_call_after_a_failed_call_on_the_same_config",
+		"hist_failing_ops_leaving_a_partial_datum",
 	];
 	if rep.violations.is_empty() {
 		for k in need {
@@ -682,6 +987,9 @@ pub fn run(rep: &mut Report) {
 
 pub fn replay(v: &serde_json::Value) -> i32 {
 	let r = &v["replay"];
+	if !r["hist"].is_null() {
+		return replay_hist(&r["hist"]);
+	}
 	let a = r["a"].as_u64().unwrap_or(0) as usize;
 	let choices: Vec<usize> = r["choices"].as_array().map(|c| c.iter().map(|c| c.as_u64().unwrap() as usize).collect()).unwrap_or_default();
 	let t = tier(r["thorough"].as_bool().unwrap_or(false));
